@@ -245,6 +245,13 @@ def targeted(oc, when=''):
         'ItemInsert-to-the-end': B.item_insert('A', BLANK, [B.item('N1')]),
         'ReadyToAir': B.ready_to_air(),
         'RunningOrderEnd': B.ro_delete(),
+        # IDs spread over several element_source tags
+        'EAStoryMove-two-blocks': B.ea('MOVE', {'storyID': 'A'}, [B.ids('storyID', ['X']), B.ids('storyID', ['B'])]),
+        'EAStoryDelete-two-blocks': B.ea('DELETE', ABSENT, [B.ids('storyID', ['B']), B.ids('storyID', ['nowhere'])]),
+        'EAItemDelete-two-blocks': B.ea('DELETE', {'storyID': 'A'}, [B.ids('itemID', ['I1']), B.ids('itemID', ['X2'])]),
+        'EAItemMove-two-blocks': B.ea('MOVE', {'storyID': 'A', 'itemID': 'I1'}, [B.ids('itemID', ['X2']), B.ids('itemID', ['X1'])]),
+        'EAStoryInsert-two-blocks': B.ea('INSERT', {'storyID': 'A'}, [[X()], [B.story('Y', [])]]),
+        'EAStorySwap-two-blocks': B.ea('SWAP', ABSENT, [B.ids('storyID', ['A']), B.ids('storyID', ['B'])]),
     }
     carriers.update(movers)
     sid = lambda c: 'A' if (c in movers or c in ('StorySend', 'ItemInsert', 'ItemReplace', 'EAItemInsert', 'EAItemReplace')) else 'X'
